@@ -8,7 +8,11 @@ PROPS["C15"] = dict(
          "destinations whose len == cap and with windows big[8:8+d] of a larger array (len < cap: canary data in front, "
          "spare capacity behind), where additionally no byte outside dst[:n] (outside dst[:len(dst)] when the call fails) may "
          "change (sizes > 2048: windows of the lengths 0..64, size-64..size+1 and every (size/64)-th in between); "
-         "ObjectsWriter into a bytes.Buffer gives the same bytes and count; Unmarshal returns (size, value, nil) from a source "
+         "ObjectsWriter into a bytes.Buffer gives the same bytes and count, and so it does into the other sink kinds: a sink that "
+         "is an io.Writer and nothing else, and a *bufio.Writer of 16 bytes over such a sink that already holds f bytes written "
+         "by the harness, for EVERY f = 0..16 (all amounts of free space, none included; values above 64 KiB: f = 0, 1, 15, 16) - "
+         "after Flush the sink holds the f bytes followed by exactly the Marshal encoding (counted in "
+         "sink_kind_and_fill_level_writes_checked); Unmarshal returns (size, value, nil) from a source "
          "with cap == len and from one with spare capacity; newBuf=true: the result's backing array res[:cap(res)] (any "
          "length, 0 included; strings: the non-empty data) does not overlap the source's memory, appending to the decoded "
          "byte string leaves the source unchanged, and the value survives flipping the source; newBuf=false: a non-empty "
@@ -19,24 +23,44 @@ PROPS["C15"] = dict(
          "-2..+2, all byte strings/strings of length 0..3 over {00,'a',ff}, every length 0..260, 2^14-4..2^14+4, 2^21-1, 2^21 "
          "(thorough 2^21-3..2^21+2), all lists of length 2 (thorough 3) over 26 representative items; rapid: the same value "
          "classes drawn at random plus random 64-bit values and random content (text, arbitrary and hostile bytes, i.e. "
-         "invalid UTF-8). Not generated: byte strings >= 2^28 bytes (5-byte prefix; 256 MB per value). "
+         "invalid UTF-8). Byte strings with random content of >= 2^28 bytes are not generated (256 MB per value and copy); the "
+         "lengths beyond are covered by the third case type. "
+         "Huge bodies (third case type, unit huge_bodies): a value of L ZERO bytes, as []byte and as string, L = 2^21, 2^28 "
+         "(4/5-byte prefix), 2^29, 2^30 each -2..+2, 2^30+2^20+5 (thorough also 2^31, 2^32 each -2..+2, 3*2^30+7, 2^32+2^30+1); "
+         "the value is a window of one arena of zeroed memory whose pages are never written and the sink only counts (it keeps "
+         "the first 16 bytes of the stream), so the unit needs address space, not resident memory (peak in "
+         "huge_bodies_peak_resident_kB); oracle: predicted size - L is 1..10, Marshal into every destination of 0..prefix+6 "
+         "bytes -> (0, error), ObjectsWriter returns (predicted size, nil) and the sink received exactly that many bytes, the "
+         "bytes after the prefix are zero, and the emitted prefix put in front of the arena's zero bytes decodes (newBuf=false) "
+         "to (size, L bytes starting at source[prefix], nil). Not done for these lengths: Marshal into a full-size destination "
+         "and newBuf=true (both copy the body). "
          "Writer histories (second case type): 1 goroutine (writers units) or 2..4 goroutines at the same time (writers_concurrent, "
          "-race in the thorough tier, a quarter of the cases with GOMAXPROCS(1)), each with ONE ObjectsWriter value whose exported "
          "Writer field is re-pointed before every item to one of 1..4 destinations of its own: bytes.Buffer (io.StringWriter), a "
          "plain io.Writer, a framing writer whose Write sends p as one length-prefixed frame through a second ObjectsWriter, a "
-         "writer that yields the processor inside Write; oracle: every write returns (size, nil) and every destination received "
+         "writer that yields the processor inside Write, and (a third of the drawn destinations) a *bufio.Writer of 1..24, "
+         "25..300 or 4096 bytes over an io.Writer-only sink into which the harness has already written 0..size bytes (4096: "
+         "0..24 bytes left free), so that the items meet whatever free space the history leaves (classes "
+         "writers_bufio_item_met_lt_10_free_bytes / _0_free_bytes); ObjectsWriter.Writer is the *bufio.Writer itself and the "
+         "sink is compared after Flush; oracle: every write returns (size, nil) and every destination received "
          "exactly the concatenation of the Marshal encodings of the items directed to it (frame bodies for the framing writer); "
-         "exhaustive over all lists of <= 3 (thorough 4) steps from 9 items x 4 destinations, rapid lists of 1..12 steps. "
+         "exhaustive over all lists of <= 3 (thorough 4) steps from 9 items x 4 destinations and over all lists of 1..2 of the 9 "
+         "items into one bufio.Writer of 1, 2, 3, 4, 7, 10, 11, 16, 32 bytes pre-filled to every level 0..size (4096 bytes: "
+         "4084..4096), rapid lists of 1..12 steps. Not generated: sinks that fail or write short (io.Writer demands an error "
+         "for a short write, and the property says nothing about what ObjectsWriter returns when its Writer fails). "
          "non-trivial = some varint value or byte-string length is within 2 of 2^(7k) (or the varint is >= 2^64-3), or a "
          "fixed-width value is within 2 of 2^(8k) or of the top of its range; rejected short destinations are exercised by "
          "every case and counted in short_destination_rejections_checked; a writer history is non-trivial when the Writer field "
-         "changed between two items, or a destination is not a bytes.Buffer, or more than one goroutine wrote; "
+         "changed between two items, or a destination is not a bytes.Buffer, or more than one goroutine wrote; a huge body is "
+         "non-trivial when its length is within 2 of 2^(7k) or above 2^30; "
          "distinct = FNV hash of the case's JSON form",
     assumptions=["uint is 64 bits wide on the platform of the run (values up to 2^64-1 are given to MarshalUint)",
                  "nothing is asserted about the byte format itself (only round trip, sizes, agreement of the two writers)",
                  "newBuf=false 'aliases the input' is read as: a non-empty result starts at source[prefix length]; empty results carry no aliasing claim",
                  "'independent of the source buffer' (newBuf=true) is read on the backing array: the decoded slice, up to its capacity, shares no memory with the source (a zero-capacity result is fine)",
-                 "Marshal 'returns number of bytes written': on success nothing outside dst[:n] is written, on failure nothing outside dst[:len(dst)]"],
+                 "Marshal 'returns number of bytes written': on success nothing outside dst[:n] is written, on failure nothing outside dst[:len(dst)]",
+                 "a *bufio.Writer is an ordinary io.Writer for ObjectsWriter: what reaches the underlying sink after Flush is what ObjectsWriter was asked to write, whatever free space the buffer had",
+                 "huge_bodies: a fresh allocation of several GiB is zeroed address space that the operating system backs lazily (Linux anonymous memory); the unit reads at most 16 bytes of the value and writes at most 10 bytes of the arena"],
     units=[
         dict(name="exhaustive", run="^TestC15Exhaustive$", shards=(2, 8), timeout=(200, 600)),
         dict(name="rapid", run="^TestC15Rapid$", checks=(4000, 60000), shards=(8, 16), timeout=(200, 900)),
@@ -44,6 +68,7 @@ PROPS["C15"] = dict(
         dict(name="writers", run="^TestC15RapidWriters$", checks=(10000, 200000), shards=(2, 8), timeout=(200, 600)),
         dict(name="writers_concurrent", run="^TestC15RapidWritersConcurrent$", checks=(5000, 40000), shards=(2, 8), timeout=(200, 900),
              race=(False, True)),
+        dict(name="huge_bodies", run="^TestC15HugeBodies$", shards=1, timeout=(200, 400)),
         dict(name="fuzz", run="^FuzzC15$", fuzz=(None, "^FuzzC15$"), enabled=(False, True), serial=True, shards=1, timeout=(200, 400),
              args=([], ["-test.fuzz=^FuzzC15$", "-test.fuzztime=75s", "-test.fuzzcachedir={rundir}/fuzzcache", "-test.parallel=16"]),
              env={"VERIF_STATS_PERPID": "1"}),
@@ -55,6 +80,8 @@ LEVEL_TEXT["C15"] = (
     "8-bit boundary with its neighbours for the wider kinds, every byte-string length across the 1/2-byte prefix boundary "
     "and around the 2/3- and 3/4-byte ones, plus tens of thousands of random mixed item lists are encoded by both writers "
     "into every destination length from 0 to size+1 and decoded again, alone and concatenated. No counterexample among the "
-    "cases counted in the evidence; not a proof for the 64-bit values and contents that were not drawn, and byte strings "
-    "of 256 MB and more (5-byte prefix) are not exercised."
+    "cases counted in the evidence; not a proof for the 64-bit values and contents that were not drawn. The stream writer is "
+    "also driven into io.Writer-only sinks and into bufio.Writers at every fill level; byte strings of 256 MB up to more "
+    "than 1 GiB (thorough: more than 4 GiB; 5-byte prefix) are exercised with zero content only, through a counting sink and "
+    "an in-place decode - Marshal into a full-size destination and newBuf=true are not exercised at those lengths."
 )
